@@ -19,11 +19,14 @@ from . import effects, facts, ir, ptr, ranges, repo, widths
 
 LEVEL = "other"
 MANIFEST = {
-    "text": "decides, in every analysed configuration (5 back ends x share triples, library and both "
-            "tools): constant subscripts and constant-extent block operations stay inside their array / "
-            "member, guard-bounded variable subscripts into fixed arrays stay below the bound, string-length "
-            "subtractions feeding a length are guarded, shift amounts are below the width; general memory "
-            "safety for arbitrary caller-provided buffer/length combinations is not decided",
+    "text": "decides, in every analysed configuration (5 back ends x share triples incl. key < max, library and "
+            "both tools): constant subscripts and constant-extent block operations stay inside their array / "
+            "member, guard-bounded variable subscripts stay below the bound, string-length subtractions feeding a "
+            "length are guarded, shift amounts are below the width, a constant-extent access fits the "
+            "guard-bounded remaining length (D6), the bytes a callee always accesses through a pointer parameter "
+            "fit the object passed at each call site (D7), and no size_t length is masked with a zero-extended "
+            "32-bit constant (D8); general memory safety for arbitrary caller-provided buffer/length combinations "
+            "is not decided",
     "note": "trusted: clang lowering, irdump GEP/type facts; the interval analysis is a sound "
             "over-approximation, so a reported index range is reachable along CFG paths (path feasibility is "
             "not checked beyond the guards)",
